@@ -279,6 +279,7 @@ impl<'a> Tr<'a> {
                 Lit::Int(i) => Ok((format!("{}", i.base10_digits()), Kind::Num)),
                 Lit::Bool(b) => Ok((format!("{}", b.value), Kind::Other)),
                 Lit::Str(st) => Ok((byte_list(st.value().as_bytes()), Kind::Bytes)),
+                Lit::ByteStr(st) => Ok((byte_list(&st.value()), Kind::Bytes)),
                 Lit::Char(c) => Ok((byte_list(c.value().to_string().as_bytes()), Kind::Bytes)),
                 _ => Err(format!("literal {}", text)),
             },
@@ -639,9 +640,14 @@ impl<'a> Tr<'a> {
                 let name = toks(&st.path);
                 let ctor = self.t.ctor.get(&name).cloned().ok_or(format!("struct {}", name))?;
                 let mut parts = Vec::new();
+                let outer = self.expect_ty.take();
                 for f in &st.fields {
-                    parts.push(self.expr(&f.expr, binds)?.0);
+                    self.expect_ty = self.field_types.get(&toks(&f.member)).cloned();
+                    let r = self.expr(&f.expr, binds);
+                    self.expect_ty = None;
+                    parts.push(r?.0);
                 }
+                self.expect_ty = outer;
                 Ok((format!("({} {})", ctor, parts.join(" ")), Kind::Other))
             }
             Expr::If(i) if i.else_branch.is_some() && !matches!(&*i.cond, Expr::Let(_)) => {
@@ -671,6 +677,12 @@ impl<'a> Tr<'a> {
                 let n = self.fresh("v");
                 binds.push((n.clone(), format!("if {} then {} else {}", c, a, b)));
                 Ok((n, ka))
+            }
+            Expr::Array(a) if self.expect_ty.as_ref().map(|t| t.contains("[u8")).unwrap_or(false)
+                && a.elems.iter().all(|x| matches!(x, Expr::Lit(l) if matches!(&l.lit, Lit::Int(i) if i.base10_parse::<u16>().map(|v| v < 256).unwrap_or(false)))) => {
+                // an array of byte values where a byte slice is expected: the bytes themselves
+                let vals: Vec<u8> = a.elems.iter().map(|x| match x { Expr::Lit(l) => match &l.lit { Lit::Int(i) => i.base10_parse::<u16>().unwrap() as u8, _ => 0 }, _ => 0 }).collect();
+                Ok((byte_list(&vals), Kind::Bytes))
             }
             Expr::Array(a) => {
                 // [a, b, c]: a list
@@ -2210,6 +2222,14 @@ impl<'a> Tr<'a> {
                 Ok(format!("({})", parts.join(", ")))
             }
             Pat::Reference(r) => self.pattern(&r.pat),
+            Pat::Or(o) => {
+                // A | B | C (no bindings expected): the same alternatives in Coq
+                let mut parts = Vec::new();
+                for c in &o.cases {
+                    parts.push(self.pattern(c)?);
+                }
+                Ok(parts.join(" | "))
+            }
             _ => Err(format!("pattern {}", toks(p))),
         }
     }
@@ -2332,6 +2352,7 @@ impl<'a> Tr<'a> {
                     Pat::Lit(l) => match &l.lit {
                         // a string pattern: comparison of the bytes
                         Lit::Str(st) => Some(format!("(bytes_eqb {} {})", scrut, byte_list(st.value().as_bytes()))),
+                        Lit::ByteStr(st) => Some(format!("(bytes_eqb {} {})", scrut, byte_list(&st.value()))),
                         _ => Some(format!("({} =? {})", scrut, toks(l))),
                     },
                     Pat::Range(r) => {
